@@ -1,5 +1,9 @@
 """The reference front end R1 -> R2 -> R3 -> R4 (-> R5) on the same text the compiler gets."""
+import sys
+
 from . import includes, interp, lexer as L, macros, parser
+
+sys.setrecursionlimit(max(sys.getrecursionlimit(), 30000))   # LOOP nests and include chains more than a thousand deep
 
 
 class Front:
